@@ -83,6 +83,39 @@ fn go<T: Serialize + DeserializeOwned + PartialEq + Debug>(j: &Value) -> Value {
     }
 }
 
+#[derive(Debug, Clone, PartialEq, Serialize, Deserialize)]
+struct FloatPair {
+    x: f32,
+    y: f64,
+}
+
+// floats given by their bits (the spec's tagged tree: {"f32": [4 bytes]} / {"f64": [8 bytes]}), so that values JSON cannot
+// write (the infinities) can be materialised
+fn f32_of(v: &Value) -> f32 {
+    let b: Vec<u8> = v["f32"].as_array().map(|a| a.iter().map(|x| x.as_u64().unwrap_or(0) as u8).collect()).unwrap_or_default();
+    f32::from_bits(u32::from_be_bytes([b[0], b[1], b[2], b[3]]))
+}
+fn f64_of(v: &Value) -> f64 {
+    let b: Vec<u8> = v["f64"].as_array().map(|a| a.iter().map(|x| x.as_u64().unwrap_or(0) as u8).collect()).unwrap_or_default();
+    f64::from_bits(u64::from_be_bytes([b[0], b[1], b[2], b[3], b[4], b[5], b[6], b[7]]))
+}
+/// NaN-free float types compare with == but the infinities and -0.0 need the bits to be looked at
+fn rt_bits<T: Serialize + DeserializeOwned + PartialEq + Debug>(v: &T) -> Value {
+    rt(v)
+}
+
+fn dispatch_tagged(ty: &str, t: &Value) -> Option<Value> {
+    Some(match ty {
+        "F32B" => rt_bits(&f32_of(t)),
+        "F64B" => rt_bits(&f64_of(t)),
+        "OptF32" => rt_bits(&(if t.get("none").is_some() { None } else { Some(f32_of(&t["some"])) })),
+        "VecF32" => rt_bits(&t["seq"].as_array().map(|a| a.iter().map(f32_of).collect::<Vec<f32>>()).unwrap_or_default()),
+        "TupF32F64" => rt_bits(&(f32_of(&t["seq"][0]), f64_of(&t["seq"][1]))),
+        "FloatPair" => rt_bits(&FloatPair { x: f32_of(&t["struct"][0][1]), y: f64_of(&t["struct"][1][1]) }),
+        _ => return None,
+    })
+}
+
 fn dispatch(ty: &str, j: &Value) -> Value {
     match ty {
         "I8" => go::<i8>(j),
@@ -144,7 +177,11 @@ pub fn run(args: &[String]) -> i32 {
     let recs = read_ndjson(&args[0]);
     let mut w = NdWriter::create(&args[1]);
     for r in recs.iter() {
-        let mut o = dispatch(r["ty"].as_str().unwrap_or(""), &r["json"]);
+        let ty = r["ty"].as_str().unwrap_or("");
+        let mut o = match (r.get("tagged"), catch(|| dispatch_tagged(ty, &r["tagged"]))) {
+            (Some(t), Ok(Some(v))) if !t.is_null() => v,
+            _ => dispatch(ty, &r["json"]),
+        };
         o["id"] = r["id"].clone();
         w.put(&o);
     }
